@@ -143,7 +143,7 @@ def main():
             dst = os.path.join(VERIF, rel)
             os.makedirs(os.path.dirname(dst), exist_ok=True)
             if kind in ("copy-new", "copy-changed"):
-                shutil.copy2(os.path.join(scratch, rel), dst)
+                shutil.copy(os.path.join(scratch, rel), dst)
             elif kind.startswith("merge"):
                 with open(dst, "wb") as f:
                     f.write(m[0])
